@@ -97,9 +97,9 @@ FAMILIES["pool"] = {"drivers": [{"name": "pool", "spec": "Trace_Pool"}, {"name":
 PROPS = {
     "C20": {"level": "fault_enumeration", "models": ["MC_Exec"], "families": ["fault", "farm", "pool", "epoch", "auth"]},
     "C01": {"level": "model_checking", "models": ["MC_Pool"], "families": ["pool"]},
-    "C02": {"level": "model_checking", "models": ["MC_Pool", "MC_Math"], "families": ["pool"]},
-    "C03": {"level": "model_checking", "models": ["MC_Pool", "MC_Math"], "families": ["pool"]},
-    "C04": {"level": "model_checking", "models": ["MC_Pool", "MC_Math"], "families": ["pool"]},
+    "C02": {"level": "model_checking", "models": ["MC_Pool", "MC_Math"], "families": ["pool"], "proofs": ["proofs/PoolLemmas.tla"]},
+    "C03": {"level": "model_checking", "models": ["MC_Pool", "MC_Math"], "families": ["pool"], "proofs": ["proofs/PoolLemmas.tla"]},
+    "C04": {"level": "model_checking", "models": ["MC_Pool", "MC_Math"], "families": ["pool"], "proofs": ["proofs/PoolLemmas.tla"]},
     "C12": {"level": "model_checking", "models": [], "families": ["pool"]},
     "C13": {"level": "model_checking", "models": ["MC_Math"], "families": ["pool"]},
     "C14": {"level": "model_checking", "models": ["MC_Pool", "MC_Exec"], "families": ["pool", "fault"]},
@@ -110,10 +110,10 @@ PROPS = {
     "C17": {"level": "model_checking", "models": ["MC_Pool"], "families": ["pool"]},
     "C19": {"level": "model_checking", "models": ["MC_Math"], "families": ["pool"]},
     "C05": {"level": "model_checking", "models": ["MC_FarmLife"], "families": ["farm", "pool"]},
-    "C06": {"level": "model_checking", "models": ["MC_Farm", "MC_FarmLife"], "families": ["farm"]},
-    "C07": {"level": "model_checking", "models": ["MC_Farm"], "families": ["farm"]},
+    "C06": {"level": "model_checking", "models": ["MC_Farm", "MC_FarmLife"], "families": ["farm"], "proofs": ["proofs/FarmLemmas.tla"]},
+    "C07": {"level": "model_checking", "models": ["MC_Farm"], "families": ["farm"], "proofs": ["proofs/FarmLemmas.tla"]},
     "C08": {"level": "model_checking", "models": ["MC_FarmLife"], "families": ["farm", "pool"]},
-    "C09": {"level": "model_checking", "models": ["MC_FarmLife", "MC_Math"], "families": ["farm"]},
+    "C09": {"level": "model_checking", "models": ["MC_FarmLife", "MC_Math"], "families": ["farm"], "proofs": ["proofs/FarmLemmas.tla"]},
     "C10": {"level": "model_checking", "models": ["MC_Farm"], "families": ["farm", "pool"]},
     "C11": {"level": "model_checking", "models": ["MC_FarmLife"], "families": ["farm"]},
     "C18": {"level": "model_checking", "models": ["MC_Epoch"], "families": ["epoch"], "proofs": ["proofs/EpochLemmas.tla"]},
